@@ -53,6 +53,12 @@ def _work(job):
             args = [('slice',), ('idx', start)]
         m = scan.Machine(bodies, sp, [(markers[0], markers[1], list(path))], scanner, args, inline_pred)
         raw = m.run()
+        retried = False
+        if any(f[0] == 'unsupported' and 're-scan' in f[1] for f in raw):
+            # the scanner re-reads a position it remembered: track the content of every referenced position
+            m = scan.Machine(bodies, sp, [(markers[0], markers[1], list(path))], scanner, args, inline_pred, track_all=True)
+            raw = m.run()
+            retried = True
         out = []
         seen = set()
         for f in raw:
@@ -70,7 +76,7 @@ def _work(job):
             out.append(dict(kind=kind, msg=msg, where=where, pre=list(pre), cont=list(cont)))
             if len(out) >= 6:
                 break
-        return dict(idx=idx, findings=out, stats=m.stats, wall=round(time.time() - t0, 2), spec_states=d.n, classes=d.alpha.n)
+        return dict(idx=idx, findings=out, stats=m.stats, wall=round(time.time() - t0, 2), spec_states=d.n, classes=d.alpha.n, tracked_all=retried)
     except Exception as e:      # fail closed in the parent
         import traceback
         return dict(idx=idx, error=f'{type(e).__name__}: {e}', tb=traceback.format_exc()[-1500:], findings=[], stats={}, wall=round(time.time() - t0, 2))
